@@ -24,6 +24,13 @@ func (RejectMessagesDecorator) AnteHandle(ctx sdk.Context, tx sdk.Tx, simulate b
 			)
 		}
 
+		if strings.HasPrefix(sdk.MsgTypeURL(msg), "/settlus.oracle") {
+			return ctx, errorsmod.Wrapf(
+				errortypes.ErrInvalidType,
+				"Oracle Msg can only be processed in the Oracle ante handler",
+			)
+		}
+
 		if sdk.MsgTypeURL(msg) == "/cosmos.staking.v1beta1.MsgCreateValidator" && ctx.BlockHeight() != 0 {
 			return ctx, errorsmod.Wrapf(
 				errortypes.ErrInvalidType,
